@@ -1,73 +1,20 @@
 (* LibAll.v — ONE library for the interpreter model: the core functions of Model/LibCore.v (those that log, read the
-   globals, compare, or are host callables) overlaid with the array / object / string / regexEscape / urlEncode
-   functions of Model/LibSeq.v (property C15's model) and arraySort (Model/LibCall.v, the function that calls back), lifted from LibSeq's single heap of cells to the interpreter's
-   world.  With it whole programs that use the wider library run inside the model.  No proofs here.
+   globals, compare, or are host callables) overlaid with
+     * arraySort (Model/LibCall.v, the function that calls back),
+     * the array / object / string / regexEscape / urlEncode functions of Model/LibSeq.v (property C15's model), lifted from
+       LibSeq's single heap of cells to the interpreter's world,
+     * the JSON, number-text, datetime and math functions of Model/LibMore.v (lifted from the models of C14, C13, C16), and the
+       JSON / ISO text of containers and datetimes for stringNew / systemLog.
+   With it whole programs that use the wider library run inside the model.  notes/LIB.md lists every function, where its model
+   comes from and what it declines.  No proofs here.
 
-   The lifting [lift_seq] is a pure change of representation:
-     * an interpreter array location l is heap position l, an object location l is position (#arrays + l);
-       cells the call allocates come after both and are split again into arrays and objects, in allocation order;
-     * a function value travels as a number (LibSeq never looks inside one): FScript id = 2 id,
-       FLib name = 2 enc(name) + 1 with enc an injective base-1114113 numeral of the code points;
-     * LibSeq's failures carry no message text, so in DEBUG mode (where the call wrapper logs the message) a failing
-       lifted call is declined (LOracle) rather than guessed. *)
+   The lifting [lift_seq] is a pure change of representation (Model/LibLift.v).  LibSeq's failures carry no message text, so in
+   DEBUG mode (where the call wrapper logs the message) a failing lifted call is declined (LOracle) rather than guessed. *)
 From Coq Require Import SpecFloat.
 From BS Require Import Model.Base Model.Num Model.Arith Model.ExprParser Model.Script Model.Interp Model.LibCore Model.LibCall.
-From BS Require Model.LibVal Model.LibSeq.
+From BS Require Export Model.LibLift.
+From BS Require Import Model.LibMore.
 Local Open Scope N_scope.
-
-Module V := BS.Model.LibVal.
-Module Q := BS.Model.LibSeq.
-
-(* ---- function values as numbers ---- *)
-Definition enc_base : N := 1114113.
-Definition enc_str (s : str) : N := fold_left (fun a c => a * enc_base + (c + 1)) s 0.
-Fixpoint dec_str (fuel : nat) (n : N) (acc : str) : str :=
-  match fuel with
-  | O => acc
-  | S f => if n =? 0 then acc else dec_str f (n / enc_base) ((n mod enc_base - 1) :: acc)
-  end.
-Definition enc_fn (f : fnref) : N :=
-  match f with FScript id => 2 * N.of_nat id | FLib name => 2 * enc_str name + 1 end.
-Definition dec_fn (n : N) : fnref :=
-  if N.even n then FScript (N.to_nat (n / 2)) else let m := n / 2 in FLib (dec_str (S (N.to_nat (N.log2 m))) m []).
-
-(* ---- values and heaps, forth ---- *)
-Definition to_v (na : nat) (v : value) : V.value :=
-  match v with
-  | VNull => V.VNull | VBool b => V.VBool b | VNum n => V.VNum n | VStr s => V.VStr s | VDate us => V.VDate us
-  | VArr l => V.VArr l | VObj l => V.VObj (na + l)%nat
-  | VFun f => V.VFun (enc_fn f) | VRegex id => V.VRegex id
-  end.
-
-Definition heap_of (w : world) : V.heap :=
-  let na := length (w_arrs w) in
-  map (fun l => V.CArr (map (to_v na) l)) (w_arrs w) ++
-  map (fun kv => V.CObj (map (fun p => (fst p, to_v na (snd p))) kv)) (w_objs w).
-
-(* ---- and back ---- *)
-Definition is_carr (c : V.cell) : bool := match c with V.CArr _ => true | V.CObj _ => false end.
-Definition count_kind (arr : bool) (cs : list V.cell) (j : nat) : nat :=
-  length (filter (fun c => Bool.eqb (is_carr c) arr) (firstn j cs)).
-
-Section Back.
-Variables (na no : nat) (fresh : list V.cell).      (* fresh = the cells allocated by the call *)
-
-Definition loc_back (arr : bool) (p : nat) : nat :=
-  if Nat.ltb p na then p
-  else if Nat.ltb p (na + no) then (p - na)%nat
-  else ((if arr then na else no) + count_kind arr fresh (p - (na + no)))%nat.
-
-Definition of_v (v : V.value) : value :=
-  match v with
-  | V.VNull => VNull | V.VBool b => VBool b | V.VNum n => VNum n | V.VStr s => VStr s | V.VDate us => VDate us
-  | V.VArr p => VArr (loc_back true p) | V.VObj p => VObj (loc_back false p)
-  | V.VFun id => VFun (dec_fn id) | V.VRegex id => VRegex id
-  end.
-
-Definition arr_back (c : V.cell) : list value := match c with V.CArr l => map of_v l | V.CObj _ => [] end.
-Definition obj_back (c : V.cell) : list (str * value) :=
-  match c with V.CObj kv => map (fun p => (fst p, of_v (snd p))) kv | V.CArr _ => [] end.
-End Back.
 
 Section Lib.
 Variable cfg : config.
@@ -100,9 +47,11 @@ Definition core_names : list str :=
 Definition str_mem (s : str) (l : list str) : bool := existsb (str_eqb s) l.
 
 Definition libfull (callback : caller) (name : str) (args : list value) (w : world) : lres * world :=
-  if str_mem name core_names then libcore cfg callback name args w
+  if text_override name args then libmore cfg name args w           (* stringNew / systemLog of a container or a datetime *)
+  else if str_mem name core_names then libcore cfg callback name args w
   else if op_is name "arraySort" then lib_sort cfg callback args w
   else if str_mem name Q.modelled_functions then lift_seq name args w
+  else if str_mem name more_names then libmore cfg name args w      (* Model/LibMore.v: JSON, number text, datetimes, math *)
   else (LOracle, w).
 
 End Lib.
